@@ -57,6 +57,7 @@ func verifyFunc(prog *ssa.Program, specs *SpecDB, fn *ssa.Function, opts verifyO
 	}
 	e.declConst("alloc!0", "Int")
 	e.assume("(> alloc!0 0)")
+	e.entryAlloc = true
 	st := &State{heap: map[string]string{}, alloc: "alloc!0", iters: map[*ssa.Range]string{}, e: e, base: "0"}
 	var args []Val
 	for _, p := range fn.Params {
